@@ -56,6 +56,9 @@ pub fn model_templates(body: &[u8], blen: usize) -> (usize, [usize; 3], usize) {
 /// options-template cache untouched.
 macro_rules! s_v9_template {
     ($name:ident, $fcs:expr, $nrec:expr, $pad:expr, $trunc:expr) => {
+        s_v9_template!($name, $fcs, $nrec, $pad, $trunc, 1);
+    };
+    ($name:ident, $fcs:expr, $nrec:expr, $pad:expr, $trunc:expr, $cfc:expr) => {
         #[kani::proof]
         #[kani::stub(core::fmt::write, no_fmt)]
         fn $name() {
@@ -73,11 +76,16 @@ macro_rules! s_v9_template {
                 t
             };
             const N: usize = 4 + B + 2;
+            // cached entry with CFC symbolic fields: it may coincide with an incoming record in
+            // id, field count, field types, total size - and still differ
+            const CFC: usize = $cfc;
             let mut p = V9Parser::default();
             let c0: u16 = kani::any();
             let cf = any_field();
             let cf_copy = cf.clone();
-            p.templates.insert(c0, Template { template_id: c0, field_count: 1, fields: vec![cf] });
+            let cf1 = any_field();
+            let cf1_copy = cf1.clone();
+            p.templates.insert(c0, Template { template_id: c0, field_count: CFC as u16, fields: if CFC == 2 { vec![cf, cf1] } else { vec![cf] } });
             let mut buf: [u8; N] = kani::any();
             buf[0] = 0;
             buf[1] = 0;
@@ -147,8 +155,9 @@ macro_rules! s_v9_template {
                                         }
                                     } else {
                                         assert!(q == c0);
-                                        assert!(t.template_id == c0 && t.field_count == 1 && t.fields.len() == 1);
+                                        assert!(t.template_id == c0 && t.field_count == CFC as u16 && t.fields.len() == CFC);
                                         assert!(t.fields[0] == cf_copy);
+                                        assert!(CFC < 2 || t.fields[1] == cf1_copy);
                                     }
                                 }
                                 None => assert!(last == 3 && q != c0),
@@ -174,6 +183,8 @@ s_v9_template!(s_v9_template_1f_1f, [1, 1, 0], 2, 2, false);
 s_v9_template!(s_v9_template_1f_0f_1f, [1, 0, 1], 3, 0, false);
 s_v9_template!(s_v9_template_1f_trunc, [1, 0, 0], 1, 6, true);
 s_v9_template!(s_v9_template_only_trunc, [0, 0, 0], 0, 5, true);
+// cached entry of the same shape (two fields) as the incoming record
+s_v9_template!(s_v9_template_2f_c2, [2, 0, 0], 1, 0, false, 2);
 
 /// S (C14/C06): template flowset whose declared length exceeds the buffer: Err, cache unchanged
 /// (see s_v9_truncated_t below for all lengths).
@@ -188,6 +199,9 @@ pub fn scope_eq(f: &OptionsTemplateScopeField, b: &[u8], o: usize) -> bool {
 /// padding), everything else symbolic.
 macro_rules! s_v9_options_template {
     ($name:ident, $sl:expr, $ol:expr, $pad:expr) => {
+        s_v9_options_template!($name, $sl, $ol, $pad, false);
+    };
+    ($name:ident, $sl:expr, $ol:expr, $pad:expr, $cached:expr) => {
         #[kani::proof]
         #[kani::stub(core::fmt::write, no_fmt)]
         fn $name() {
@@ -196,7 +210,24 @@ macro_rules! s_v9_options_template {
             const PAD: usize = $pad;
             const B: usize = 6 + 4 * (SL + OL) + PAD;
             const N: usize = 4 + B + 1;
+            // optional pre-state: one cached options template (symbolic id, 1 scope + 1 option
+            // field, both symbolic) that the incoming record may redefine or leave alone
+            const CACHED: bool = $cached;
             let mut p = V9Parser::default();
+            let c0: u16 = kani::any();
+            let csn: u16 = kani::any();
+            let csl: u16 = kani::any();
+            let cof = any_field();
+            let cof_copy = cof.clone();
+            if CACHED {
+                p.options_templates.insert(c0, OptionsTemplate {
+                    template_id: c0,
+                    options_scope_length: 4,
+                    options_length: 4,
+                    scope_fields: vec![OptionsTemplateScopeField { field_type_number: csn, field_type: ScopeFieldType::from(csn), field_length: csl }],
+                    option_fields: vec![cof],
+                });
+            }
             let mut buf: [u8; N] = kani::any();
             buf[0] = 0;
             buf[1] = 1;
@@ -232,7 +263,16 @@ macro_rules! s_v9_options_template {
                                 assert!(field_eq(&t.option_fields[j], &buf, 10 + 4 * SL + 4 * j));
                                 j += 1;
                             }
-                            assert!(p.options_templates.len() == 1);
+                            if CACHED && c0 != id {
+                                assert!(p.options_templates.len() == 2);
+                                let old = p.options_templates.get(&c0).unwrap();
+                                assert!(old.template_id == c0 && old.scope_fields.len() == 1 && old.option_fields.len() == 1);
+                                assert!(old.scope_fields[0].field_type_number == csn && old.scope_fields[0].field_length == csl);
+                                assert!(old.option_fields[0] == cof_copy);
+                            } else {
+                                assert!(p.options_templates.len() == 1);
+                            }
+                            kani::cover!(!CACHED || c0 == id);
                             let ct = p.options_templates.get(&id).unwrap();
                             assert!(ct.template_id == id && ct.options_scope_length == t.options_scope_length && ct.options_length == t.options_length);
                             assert!(ct.scope_fields.len() == SL && ct.option_fields.len() == OL);
@@ -261,6 +301,7 @@ macro_rules! s_v9_options_template {
 s_v9_options_template!(s_v9_options_template_1_1, 1, 1, 2);
 s_v9_options_template!(s_v9_options_template_2_0, 2, 0, 0);
 s_v9_options_template!(s_v9_options_template_0_2, 0, 2, 3);
+s_v9_options_template!(s_v9_options_template_1_1_c, 1, 1, 0, true);
 
 // ---- exact-on-domain models of the D layer (DESIGN §3.3): with every cached field length
 // >= 8 and a body of at most 7 bytes, no record and no field fits, so the real functions
